@@ -110,7 +110,7 @@ def run(res, tier, build_ok):
                 res.violation("opcode=%s not refused" % hex(v), "%s built with operation code %s: %s (SAM: %s)" % (klass.__name__, hex(v), got, srep),
                               {"opcode": v, "class": klass.__name__, "result": got})
     # ---- 4. PERSISTENT RESERVE IN service actions through the facade
-    sas = list(range(0, 40)) + [255, 256, 1 << 20]
+    sas = list(range(-40, 40)) + [255, 256, 1 << 20, -255, -256, -(1 << 20), (1 << 64) + 3, -(1 << 64)]   # any Python integer
     for sn in ("spc", "sbc", "ssc", "smc"):
         for sa in sas:
             fac, dev = devices.attach(sets[sn])
